@@ -7,7 +7,7 @@ CONSTANTS HiIncl = FALSE
           MaxTasks = 4
 INVARIANTS TypeOK
            DesignSafe
-           Unique
+           UniqueAssigned
            WrittenInRange
            UsedCovers
 CHECK_DEADLOCK FALSE
